@@ -218,6 +218,10 @@ Inductive IOcase :=
 | ParseTextN (includeEmpty : bool) (data : text) (canon : list (text * text)) (out : res rtg)
 | RefRead (tab : numtab) (g : dtg) (data : text)            (* g = prepared data; data = text the implementation wrote *)
 (* what Textgrid.save wrote (or that it raised) for in-memory data g *)
+(* malformed / mutated short-form text: floats, iofs = the tokens Python's float() and
+   strToIntOrFloat accept among the candidate tokens of this text *)
+| ParseShortM (data : text) (floats iofs : list text) (canon : list (text * text)) (out : res rtg)
+| ParseLongM (data : text) (floats iofs : list text) (canon : list (text * text)) (out : res rtg)
 (* duplicate tier names on opening: names in file order, the names of the opened textgrid *)
 | DupNames (mode : dupmode) (names : list text) (out : res (list text))
 | RefSave (long blanks : bool) (mn mx : option Z) (thr : option (Z * Z)) (tab : numtab) (g : dtg) (out : res text).
@@ -242,6 +246,13 @@ Definition IOcorr (c : IOcase) : bool :=
   | RefRead _ _ _ => true
   | RefSave lg b mn mx th tab g out => res_eqb text_eqb (save_text lg b mn mx th tab g) out
   | DupNames m names out => res_eqb (list_eqb text_eqb) (open_names m names []) out
+  | ParseLongM data floats iofs tab out =>
+      res_eqb rtg_eqb (do g <- parse_long_chk (fun t => existsb (text_eqb t) floats) (fun t => existsb (text_eqb t) iofs)
+                                              POINT_MARK_UNDOUBLED data;
+                       Ok (canon_rtg tab g)) out
+  | ParseShortM data floats iofs tab out =>
+      res_eqb rtg_eqb (do g <- parse_short_chk (fun t => existsb (text_eqb t) floats) (fun t => existsb (text_eqb t) iofs) data;
+                       Ok (canon_rtg tab g)) out
   end.
 
 Definition C04oracle (c : IOcase) : bool :=
